@@ -6,25 +6,35 @@ from .util import (calls_to, origins, bool_switches, find_bool_split, where, reg
 
 BASE = "abyssiniandb::DbXxxBase"
 SYNC_METHODS = ("flush", "sync_all", "sync_data")
-DIRTY_FIELD = "f:" + INNER + ".dirty"
+DIRTY_FIELD = "f:" + INNER + ".dirty"     # default; use dirty_field(prog)
+
+
+def _dd(prog):
+    from .fields import dot
+    return dot(prog, "INNER.dirty")
+
+
+def dirty_field(prog):
+    from .fields import fname
+    return "f:" + INNER + "." + fname(prog, "INNER.dirty")
 FILEDBMAP = "abyssiniandb::filedb::dbmap::FileDbMap"
 
 
-def dirty_stores(fn):
+def dirty_stores(fn, prog=None):
     """[(block, value)] for stores to FileDbXxxInner.dirty in fn; value True/False/None(non-constant)."""
     out = []
     for b, blk in enumerate(fn.blocks):
         if blk["cleanup"]:
             continue
         for s in blk["stmts"]:
-            if s["s"] == "assign" and s["lhs"]["p"] and s["lhs"]["p"][-1] == DIRTY_FIELD:
+            if s["s"] == "assign" and s["lhs"]["p"] and s["lhs"]["p"][-1] == (dirty_field(prog) if prog is not None else DIRTY_FIELD):
                 v = const_val(s["rhs"]["a"]) if s["rhs"]["rv"] == "use" else None
                 out.append((b, v if isinstance(v, bool) else None))
     return out
 
 
 def dirty_label_stmt(prog, fn, s):
-    if s["s"] == "assign" and s["lhs"]["p"] and s["lhs"]["p"][-1] == DIRTY_FIELD:
+    if s["s"] == "assign" and s["lhs"]["p"] and s["lhs"]["p"][-1] == dirty_field(prog):
         v = const_val(s["rhs"]["a"]) if s["rhs"]["rv"] == "use" else None
         if v is True:
             return {"DIRTY_SET"}
@@ -62,10 +72,10 @@ def dirty_split(prog, fn):
                 # a getter that returns the dirty field
                 tr = Tracer(prog, x)
                 os_ = tr.place({"l": 0, "p": []})
-                if os_ and all(oo.kind == "param" and oo.proj and oo.proj[-1].endswith(".dirty") for oo in os_):
+                if os_ and all(oo.kind == "param" and oo.proj and oo.proj[-1].endswith(_dd(prog)) for oo in os_):
                     return True
             return False
-        if o.kind == "param" and o.proj and o.proj[-1].endswith(".dirty"):
+        if o.kind == "param" and o.proj and o.proj[-1].endswith(_dd(prog)):
             return True
         return False
     # flow-insensitive tracing also sees the later `dirty = false` store of the same function as a (constant) origin
